@@ -29,6 +29,23 @@ CLAIMED["C14"] = dict(
     design_ref="DESIGN.md §4 C14",
 )
 
+CLAIMED["C08"] = dict(
+    engine="symx",
+    technique="symbolic execution of diff.Diff from go/ssa with symbolic line contents; z3 decides every line-equality pattern; independent patch applier as oracle",
+    text=("diff.Diff, lines and tgs (with sort.Search, the map of line counts, bytes.Buffer and the fmt calls) are executed symbolically with one solver variable per line; the path "
+          "forks exactly on the equality pattern among lines, so all alphabets are covered. The output is read back by an independent unified-diff parser/applier in the harness: "
+          "header literal, hunks ascending and non-overlapping, start/count consistent with the body (GNU convention for count 0), context and deletions equal the old lines, "
+          "forward application yields the new text and reverse application the old text, with and without final newline; nil iff byte-identical."),
+    design_ref="DESIGN.md §4 C08",
+)
+CLAIMED["C19"] = dict(
+    engine="symx",
+    technique="symbolic execution of ShouldBuild/matchTags/matchTag/MatchFile from go/ssa with the tag set as symbolic booleans; z3 compares against a reference evaluator for every generated constraint/file name",
+    text=("Every tag set over the vocabulary is covered at once (one solver boolean per tag); +build lines, leading-comment-block structure and file names are enumerated "
+          "from grammars by solver-chosen selectors; the result is compared with a reference evaluator written from the property text; path witnesses are replayed natively."),
+    design_ref="DESIGN.md §4 C19",
+)
+
 NOT_APPLICABLE = {
     "C20": "goproxytest's behaviour lives in net/http, archive/zip+flate, encoding/json (reflection) and directory walks; none is encodable by the SSA symbolic executor, and with them stubbed nothing solver-relevant remains (its once-per-key ingredient is par.Cache = C10)",
 }
